@@ -292,9 +292,17 @@ Fixpoint collect {A} (f : bytes -> seen A) (ks : list bytes) : list A :=
 
 (** tendermint [ClientState.ExportMetadata] (genesis.go): the keys handed out by
     [IterateProcessedTime], then every key of its own prefix iteration *)
+(** the prefixes ExportMetadata scans itself: when it reaches its iterators only through helpers (the regenerated
+    description then lists the prefixes of ALL the functions it calls, in call order) the ones that belong to
+    [IterateProcessedTime] — visited through that function's filter, above — are left out *)
+Definition iter_prefix_eqb (a b : iter_prefix) : bool :=
+  match a, b with PLit x, PLit y => bytes_eqb x y | _, _ => false end.
+Definition tm_export_own : list iter_prefix :=
+  filter (fun p => negb (existsb (iter_prefix_eqb p) iterprefix_tm_IterateProcessedTime)) iterprefix_tm_ClientState_ExportMetadata.
+
 Definition tm_export_keys (ks : list bytes) : list bytes :=
   collect iter_processed_time (keys_with_prefixes (prefixes_of iterprefix_tm_IterateProcessedTime) ks)
-  ++ keys_with_prefixes (prefixes_of iterprefix_tm_ClientState_ExportMetadata) ks.
+  ++ keys_with_prefixes (prefixes_of tm_export_own) ks.
 
 (** bsc / eth [ClientState.ExportMetadata]: plain prefix iterations, one after the other *)
 Definition bsc_export_keys (ks : list bytes) : list bytes :=
